@@ -32,13 +32,13 @@ type c17Case struct {
 }
 
 var c17Ops = []string{"door", "door", "door", "arith", "arith", "laws", "roundtrip", "torsion"}
-var c17Bad = []string{"valid", "valid", "x+1", "y+1", "swapped", "x+p", "y+p", "neg-x", "neg-y", "other-curve", "zero-zero", "x>=p-small", "random", "identity", "small-order", "huge"}
+var c17Bad = []string{"valid", "valid", "x+1", "y+1", "swapped", "x+p", "y+p", "neg-x", "neg-y", "other-curve", "zero-zero", "x>=p-small", "random", "identity", "small-order", "huge", "zero-as-p", "x=p", "y=p"}
 var c17Doors = []string{"NewECPoint", "UnFlatten", "JSON", "JSON-nocurve", "Gob", "msg-zkproof", "msg-bobwc"}
 
 func genC17(t *rapid.T) c17Case {
 	c := c17Case{Curve: rapid.SampledFrom([]string{"secp256k1", "ed25519"}).Draw(t, "curve"), Op: rapid.SampledFrom(c17Ops).Draw(t, "op")}
 	cv := getCurve(c.Curve)
-	c.KC = rapid.SampledFrom([]string{"1", "2", "q-1", "q+1", "2q+1", "2^300", "p+1", "prod", "rand", "rand"}).Draw(t, "kclass")
+	c.KC = rapid.SampledFrom([]string{"1", "2", "q-1", "q+1", "2q+1", "2^300", "p+1", "prod", "rand", "rand", "short-x", "short-y"}).Draw(t, "kclass")
 	var k *big.Int
 	switch c.KC {
 	case "1":
@@ -125,6 +125,23 @@ func c17Coords(c c17Case) (x, y *big.Int) {
 		return big.NewInt(0), big.NewInt(0)
 	case "huge":
 		return new(big.Int).Lsh(px, 300), py
+	case "zero-as-p": // a point with a zero coordinate, the zero written as the field prime itself
+		if c.Curve == "ed25519" {
+			tp := ref.Ed.Torsion()[c.Tor%8]
+			x, y := new(big.Int).Set(tp.X), new(big.Int).Set(tp.Y)
+			if x.Sign() == 0 {
+				x.Set(cv.P)
+			}
+			if y.Sign() == 0 {
+				y.Set(cv.P)
+			}
+			return x, y
+		}
+		return new(big.Int).Set(cv.P), big.NewInt(0)
+	case "x=p":
+		return new(big.Int).Set(cv.P), py
+	case "y=p":
+		return px, new(big.Int).Set(cv.P)
 	}
 	return px, py
 }
@@ -248,6 +265,18 @@ func runC17(c c17Case) ev.Outcome {
 		if kk.Sign() == 0 {
 			kk = big.NewInt(1)
 		}
+		if c.KC == "short-x" || c.KC == "short-y" { // a point whose coordinates have different byte lengths (1 in 128 by chance)
+			for i := 0; i < 20000; i++ {
+				x, y := cv.EC.ScalarBaseMult(kk.Bytes())
+				if (c.KC == "short-x" && x.BitLen() <= 248 && y.BitLen() > 248) || (c.KC == "short-y" && y.BitLen() <= 248 && x.BitLen() > 248) {
+					break
+				}
+				kk = new(big.Int).Mod(add(kk, 1), cv.Q)
+				if kk.Sign() == 0 {
+					kk = big.NewInt(1)
+				}
+			}
+		}
 		p := crypto.ScalarBaseMult(cv.EC, kk)
 		bz, err := json.Marshal(p)
 		if err != nil {
@@ -322,6 +351,25 @@ func runC17(c c17Case) ev.Outcome {
 			return out
 		}
 		P, Q := crypto.ScalarBaseMult(cv.EC, a), crypto.ScalarBaseMult(cv.EC, b)
+		// Equals is coordinate equality (the laws below lean on it): equal to an independent copy, different
+		// from its negative, from a point sharing only x or only y, and from another point
+		negP := crypto.NewECPointNoCurveCheck(cv.EC, P.X(), new(big.Int).Sub(cv.P, P.Y()))
+		if c.Curve == "ed25519" {
+			negP = crypto.NewECPointNoCurveCheck(cv.EC, new(big.Int).Sub(cv.P, P.X()), P.Y())
+		}
+		cp := crypto.NewECPointNoCurveCheck(cv.EC, new(big.Int).Set(P.X()), new(big.Int).Set(P.Y()))
+		if !P.Equals(cp) || !cp.Equals(P) {
+			return fail("equals", "a point does not equal an independent copy of itself")
+		}
+		if P.Equals(negP) || negP.Equals(P) {
+			return fail("equals", "a point equals its negative")
+		}
+		if P.Equals(crypto.NewECPointNoCurveCheck(cv.EC, P.X(), Q.Y())) || P.Equals(crypto.NewECPointNoCurveCheck(cv.EC, Q.X(), P.Y())) {
+			return fail("equals", "a point equals a pair that shares only one coordinate with it")
+		}
+		if a.Cmp(b) != 0 && (P.Equals(Q) || Q.Equals(P)) {
+			return fail("equals", "two different points are equal")
+		}
 		pq, err1 := P.Add(Q)
 		qp, err2 := Q.Add(P)
 		if err1 != nil || err2 != nil || !pq.Equals(qp) {
